@@ -165,6 +165,9 @@ func (e *Exec) intrinsic(fn *ssa.Function, args []Value) (ret Value, ok bool) {
 			return e.callFunction(sf, args), true
 		}
 	}
+	if e.Cfg.UFCalls != nil && e.Cfg.UFCalls[name] {
+		return e.ufCall(fn, args), true
+	}
 	if fn.Blocks == nil && fn.Pkg != nil && fn.Pkg.Pkg.Path() == e.Cfg.Pkg && strings.HasPrefix(fn.Name(), "v") {
 		return e.harnessAPI(fn, args), true
 	}
@@ -350,4 +353,35 @@ func (e *Exec) lockOp(recv Value, lock bool, name string) {
 		}
 		e.lockHeld[p.C] = false
 	}
+}
+
+// ufCall replaces a call by an uninterpreted function of its scalar and byte-slice arguments.
+func (e *Exec) ufCall(fn *ssa.Function, args []Value) Value {
+	var ts []*smt.Term
+	shape := ""
+	for _, a := range args {
+		switch x := a.(type) {
+		case *smt.Term:
+			ts = append(ts, x)
+			shape += "s"
+		case *Slice, *Str:
+			bs := e.sliceTerms(x)
+			shape += fmt.Sprintf("b%d", len(bs))
+			if len(bs) > 0 {
+				ts = append(ts, concatBytes(bs))
+			}
+		default:
+			e.unsupported("UF call %s with argument %T", fn.Name(), a)
+		}
+	}
+	res := fn.Signature.Results()
+	if res.Len() != 1 || !isScalar(res.At(0).Type()) {
+		e.unsupported("UF call %s: unsupported result", fn.Name())
+	}
+	name := "uf_" + fn.Name() + "_" + shape
+	if e.ufSeen == nil {
+		e.ufSeen = map[string]bool{}
+	}
+	e.ufSeen[name] = true
+	return smt.App(name, sortOf(res.At(0).Type()), ts...)
 }
